@@ -204,6 +204,17 @@ Definition elem_header (e : elem) : header :=
   | ACLGroupObj h _ | ACLDefault h _ _ _ _ | Goodbye h _ | Index h _ _ _ _ | Table h _ => h
   end.
 
+(* the type constant Next dispatches on for each element *)
+Definition elem_type (e : elem) : N :=
+  match e with
+  | Entry _ _ _ _ _ _ _ => CaFormatEntry | User _ _ => CaFormatUser | Group _ _ => CaFormatGroup
+  | XAttr _ _ => CaFormatXAttr | SELinux _ _ => CaFormatSELinux | Filename _ _ => CaFormatFilename
+  | Symlink _ _ => CaFormatSymlink | Device _ _ _ => CaFormatDevice | Payload _ _ => CaFormatPayload
+  | FCaps _ _ => CaFormatFCaps | ACLUser _ _ _ _ => CaFormatACLUser | ACLGroup _ _ _ _ => CaFormatACLGroup
+  | ACLGroupObj _ _ => CaFormatACLGroupObj | ACLDefault _ _ _ _ _ => CaFormatACLDefault
+  | Goodbye _ _ => CaFormatGoodbye | Index _ _ _ _ _ => CaFormatIndex | Table _ _ => CaFormatTable
+  end.
+
 (* ---------- FormatDecoder ---------- *)
 
 (* FormatDecoder.readBody (Fixed); before the fix: make([]byte, hdr.Size-consumed) + ReadFull *)
